@@ -3,6 +3,7 @@ CONSTANTS
   Impl = "pinned"
   Echo = TRUE
   MaxLen = 8
+  Fixes = {}
   MaxIn = 5
   MaxEng = 3
   PreInit = FALSE
